@@ -33,3 +33,15 @@ class RecordingResolver:
     def resolveConflicts(self, segments):
         self.last_in = sum(1 for s in segments if not s.empty)
         return self.real.resolveConflicts(segments)
+
+
+def ladder_cases(full, kmax=3):
+    """(reference, query, peak list) for every indel-ladder world (mc.props.c15.ladder_worlds) and every list of 1..kmax distinct peaks
+    from the world's five-point grid, ascending and descending"""
+    from mc.props import c15
+    for name, ref, q, grid in c15.ladder_worlds(full):
+        for k in range(1, kmax + 1):
+            for c in itertools.combinations(grid, k):
+                yield name, ref, q, list(c)
+                if k > 1:
+                    yield name, ref, q, list(c[::-1])
